@@ -256,17 +256,14 @@ Proof.
     split.
     + reflexivity.
     + intros c' E. inversion E; subst. destruct Hwf as (Hok & Hi & Hl). split; simpl.
-      * repeat split; simpl; auto; destruct (index s >? limit s) eqn:C; lia.
-      * destruct (index s >? limit s) eqn:C.
-        -- apply Z.gtb_lt in C. repeat split; try lia. exact Hp.
-        -- assert (index s <= limit s) by (rewrite Z.gtb_ltb in C; apply Z.ltb_ge in C; lia).
-           repeat split; try lia. exact Hp.
+      * split; [exact Hok|]. simpl. destruct (Z.gtb_spec (index s) (limit s)); lia.
+      * destruct (Z.gtb_spec (index s) (limit s)); (split; [lia|split; [lia|exact Hp]]).
   - (* restore *)
     destruct pend as [|p r]; simpl.
     + split; [reflexivity|discriminate].
     + split; [reflexivity|]. intros c' E. inversion E; subst.
       destruct Hp as (H1 & H2 & H3). destruct Hwf as (Hok & Hi & Hl).
-      split; simpl; [repeat split; simpl; auto; lia|exact H3].
+      split; simpl; [split; [exact Hok|simpl; lia]|exact H3].
 Qed.
 
 (* ---- Stack_refines ------------------------------------------------------------------------ *)
@@ -343,11 +340,11 @@ Proof.
     destruct (exec1 o c) as [c1|] eqn:E1; [|discriminate].
     specialize (Hinv' c1 eq_refl). rewrite (IH c1 c' Hinv' E).
     destruct c as (s, pend). destruct Hinv as (Hwf & Hp). simpl in Hwf. destruct o; simpl in E1.
-    + inversion E1; subst; simpl. rewrite push_len by assumption. lia.
+    + inversion E1; subst; cbn [fst snd]. pose proof (push_len v s Hwf). lia.
     + pose proof (pop_spec s Hwf) as P. destruct (pop s) as [(v, s')|]; [|discriminate].
-      inversion E1; subst; simpl. destruct P as (_ & Hd & _). rewrite Hd. unfold len. lia.
-    + inversion E1; subst; simpl. unfold len. lia.
-    + destruct pend; [discriminate|]. inversion E1; subst; simpl. unfold len. lia.
+      inversion E1; subst; cbn [fst snd]. destruct P as (_ & Hd & _). rewrite Hd. unfold len. lia.
+    + inversion E1; subst; cbn [fst snd data]. unfold len. lia.
+    + destruct pend; [discriminate|]. inversion E1; subst; cbn [fst snd data restore]. unfold len. lia.
 Qed.
 
 (* consequence used by C20: if every push of an execution happens at high-water mark < C, the data
